@@ -50,3 +50,33 @@ MUTANTS += [
  dict(id='C19-benign-rename-offset', props=['C19'], expect='SILENT',
       edits=[(MS, 'offset := int64(chunkIndex) * int64(state.chunkSize)\n\t\t\t\tif err := writeAtWithTimeout(recvCtx, f, buf[:chunkLen], offset, state.item.RelPath)', 'pos := int64(state.chunkSize) * int64(chunkIndex)\n\t\t\t\tif err := writeAtWithTimeout(recvCtx, f, buf[:chunkLen], pos, state.item.RelPath)')]),
 ]
+SRV = 'cmd/thruserv/main.go'
+CH = 'internal/clienthttp/client.go'
+WS = 'internal/app/ws.go'
+ICE = 'internal/ice/ice.go'
+MUTANTS += [
+ dict(id='C16-expires-required-again', props=['C16'], expect='R-JSON-KEYS/session-response/key/expires_at',
+      edits=[(CH, 'if sessionResp.ExpiresAt != "" {\n\t\tparsed, parseErr', 'if true {\n\t\tparsed, parseErr')]),
+ dict(id='C16-rename-key-server', props=['C16'], expect='R-JSON-KEYS/session-response/key/join_code',
+      edits=[(SRV, '"join_code":  sess.JoinCode,', '"joinCode":  sess.JoinCode,')]),
+ dict(id='C16-query-key-renamed', props=['C16'], expect='R-JSON-KEYS/ws-query/app.buildWebSocketURL',
+      edits=[(WS, 'join_code=%s&peer_id=%s&role=%s', 'join_code=%s&peer=%s&role=%s')]),
+ dict(id='C16-query-unescaped', props=['C16'], expect='R-JSON-KEYS/ws-query/app.buildWebSocketURL/peer_id',
+      edits=[(WS, 'url.QueryEscape(peerID)', 'peerID')]),
+ dict(id='C16-turn-prefix-one-side', props=['C16'], expect='R-TURN-SIBLING/turn/prefix-table',
+      edits=[(ICE, 'case strings.HasPrefix(raw, "turns:"):\n\t\traw = "turns://" + strings.TrimPrefix(raw, "turns:")\n', '')]),
+ dict(id='C16-status-200-only', props=['C16'], expect='R-JSON-KEYS/session-response/status',
+      edits=[(CH, 'if resp.StatusCode < 200 || resp.StatusCode >= 300 {', 'if resp.StatusCode != http.StatusOK {')]),
+ dict(id='C16-zero-off-dropped', props=['C16', 'C14'], expect='R-ZERO-OFF/zero-off/cmd/thruserv.main$2/maxSessions',
+      edits=[(SRV, 'if limits.maxSessions > 0 && store.Count() >= limits.maxSessions {', 'if store.Count() >= limits.maxSessions {')]),
+ dict(id='C16-idle-timeout-unguarded', props=['C16'], expect='R-ZERO-OFF/zero-off/cmd/thruserv.handleWebSocket/wsIdleTimeout',
+      edits=[(SRV, '\t\tif limits.wsIdleTimeout > 0 {\n\t\t\tconn.SetReadDeadline(time.Now().Add(limits.wsIdleTimeout))\n\t\t}\n\n\t\t// Only process text', '\t\tif limits.wsIdleTimeout >= 0 {\n\t\t\tconn.SetReadDeadline(time.Now().Add(limits.wsIdleTimeout))\n\t\t}\n\n\t\t// Only process text')]),
+ dict(id='C16-ttl-unguarded', props=['C16', 'C14'], expect='R-ZERO-OFF/zero-off/session-ttl/create',
+      edits=[('internal/session/session.go', 'if s.ttl > 0 {\n\t\texpiresAt = now.Add(s.ttl)\n\t}', 'if s.ttl >= 0 {\n\t\texpiresAt = now.Add(s.ttl)\n\t}')]),
+ dict(id='C16-flag-undocumented', props=['C16'], expect='R-FLAGS-DOC/flags/registered-are-documented',
+      edits=[(SRV, '\tfmt.Fprintln(termio.Stderr(), "  --max-ws-connections N       max concurrent websocket connections (default 2000)")\n', '')]),
+ dict(id='C16-turn-creds-swapped', props=['C16'], expect='R-TURN-SIBLING/turn/credentials',
+      edits=[(SRV, 'u.User = url.UserPassword(username, password)', 'u.User = url.UserPassword(password, username)')]),
+ dict(id='C16-benign-always-emit', props=['C16'], expect='SILENT',
+      edits=[(SRV, '\t\tif !sess.ExpiresAt.IsZero() {\n\t\t\tresponse["expires_at"] = sess.ExpiresAt.Format(time.RFC3339)\n\t\t}\n', '\t\tresponse["expires_at"] = sess.ExpiresAt.Format(time.RFC3339)\n')]),
+]
